@@ -217,6 +217,56 @@ fn main() {
             limit(&mut cr.violations, 2);
             cr
         })];
+        // ---- files of about 64 MiB cached in RAM with a content encoding (the encoding is applied by flute when the
+        // content is in memory): the same bytes and configuration given as a buffer and as create_from_file(cache_in_ram)
+        // yield the same packets, whatever the size of the file
+        let big: Vec<(usize, CencSpec)> = if ctx.tier == Tier::Thorough {
+            vec![((64 << 20) + 1001, CencSpec::Gzip), ((64 << 20) - 1000, CencSpec::Deflate), ((64 << 20) + 1, CencSpec::Zlib), (64 << 20, CencSpec::Gzip), ((80 << 20) + 12, CencSpec::Deflate), ((64 << 20) + 4096, CencSpec::Null)]
+        } else {
+            vec![((64 << 20) + 1001, CencSpec::Gzip), ((64 << 20) - 1000, CencSpec::Deflate)]
+        };
+        let nbig = big.len();
+        gens.push(Gen::new("big_cached_file", nbig, move |_ctx, i| {
+            let (len, cenc) = big[i];
+            let mut cr = CaseResult::default();
+            // compressible content: a phrase of 251 bytes repeated
+            let phrase: Vec<u8> = (0..251u32).map(|k| b"the same bytes whatever the source - "[(k as usize * 7) % 37]).collect();
+            let data: Vec<u8> = (0..len).map(|k| phrase[k % 251] ^ ((k >> 16) as u8 & 1)).collect();
+            let spec = SenderSpec::new(OtiSpec::new(Fec::NoCode, 1400, 64, 0));
+            let mk = |source: SourceSpec| {
+                let mut o = ObjSpec::new(data.clone(), "file:///big/cached.bin");
+                o.cenc = cenc;
+                o.inband_cenc = i % 2 == 0;
+                o.md5 = true;
+                o.source = source;
+                util::guarded(|| emit(&spec, &[o], &EmitOpts { step_ms: 10, max_instants: 30, max_packets: 200_000, ..Default::default() }))
+            };
+            let (a, b) = match (mk(SourceSpec::Buffer), mk(SourceSpec::PathRam)) {
+                (Ok(Ok(a)), Ok(Ok(b))) => (a, b),
+                (a, b) => {
+                    let d = |r: &Result<Result<Emitted, String>, util::PanicInfo>| match r { Ok(Ok(_)) => "accepted".to_string(), Ok(Err(e)) => format!("refused: {}", e), Err(p) => format!("panic: {}", p.msg) };
+                    let (da, db) = (d(&a), d(&b));
+                    if da != db {
+                        cr.violations.push(Violation::new("source_refused", format!("{} bytes, {}: buffer {}, create_from_file(cache in RAM) {}", len, cenc.name(), da, db))
+                            .with("source", "create_from_file(ram)").with("cenc", cenc.name()).with("above_64_mib", len > (64 << 20)));
+                    }
+                    return cr;
+                }
+            };
+            cr.count("packets_compared", a.stream.len().min(b.stream.len()) as u64);
+            cr.count("content_bytes", len as u64);
+            let first = (0..a.stream.len().min(b.stream.len())).find(|k| a.stream[*k].bytes != b.stream[*k].bytes);
+            if a.stream.len() != b.stream.len() || first.is_some() {
+                cr.violations.push(Violation::new("packets_differ", format!(
+                    "{} bytes, {}: buffer source {} packets (transfer length {:?}), create_from_file(cache in RAM) {} packets (transfer length {:?}), first difference at packet {:?}",
+                    len, cenc.name(), a.stream.len(), a.transfer_len[0], b.stream.len(), b.transfer_len[0], first))
+                    .with("source", "create_from_file(ram)").with("cenc", cenc.name()).with("above_64_mib", len > (64 << 20))
+                    .witness(json!({"len": len, "cenc": cenc.name(), "packets": [a.stream.len(), b.stream.len()], "transfer_length": [a.transfer_len[0], b.transfer_len[0]]})));
+            }
+            cr.shape = Some(util::fnv(&format!("big|{}|{}", len, cenc.name())));
+            cr.sample = Some(json!({"len": len, "cenc": cenc.name(), "packets": a.stream.len(), "transfer_length": a.transfer_len[0]}));
+            cr
+        }));
         // ---- stream objects larger than 4 GiB (an in-memory twin is not possible: the expectation is the RFC slicing of
         // a content that is a function of the offset). Every packet of the only transfer is looked at: (SBN, ESI) inside
         // the reference partition and seen once, payload length, pattern at the expected offset (both ends of every
